@@ -604,13 +604,20 @@ func (d *driver) run(replay string) int {
 				_ = stderr
 			}
 		} else {
-			if f.Outcome.Timing || f.crash {
+			libCrash := f.crash && f.Outcome.Clause == "crash" && strings.Contains(f.Outcome.Sig, "github.com/hslam/rpc")
+			if (f.Outcome.Timing || f.crash) && !libCrash {
 				inconclusive++
 				d.logf("not reproduced alone (%s) -> inconclusive", rate)
 				if f.crash {
 					undecided = append(undecided, fmt.Sprintf("%s: worker died but the open case does not reproduce it\n%s", f.shard, tail(f.stderr, 3000)))
 				}
 				continue
+			}
+			if libCrash {
+				// a panic inside the library killed the worker while it executed this case: the stack is
+				// the evidence even though the schedule did not repeat in isolation
+				o.History = append(o.History, "worker stderr (tail):")
+				o.History = append(o.History, strings.Split(tail(f.stderr, 2500), "\n")...)
 			}
 			note = "observed once during the run; not reproduced in " + rate + " isolated repetitions (schedule-dependent); the recorded history is the evidence"
 		}
